@@ -95,8 +95,9 @@ def h_ownership(x, bk, mode):
         b = ds["A"]
         data = {"tag": x.wrap(new[0].tag), "nested": {"list": [1, 2]}}
         ev = C.mk_event(x, new[0].start, new[0].dur, data, aligned=False)
+        returned = None
         if mode == "insert":
-            b.insert(ev)
+            returned = b.insert(ev)
         elif mode == "bulk":
             b.insert([ev])
         elif mode == "replace":
@@ -113,6 +114,13 @@ def h_ownership(x, bk, mode):
         ev.duration = x.td_us(new[1].dur)
         ev.id = 424242
         obl = [("caller-mutation-after-%s-does-not-reach-the-store" % mode, same_snapshot(snapshot(ds, "A"), first))]
+        if returned is not None:
+            # the event handed back by insert is handed out too
+            returned.data["tag"] = 55
+            returned.data["nested"]["list"].append("MUTATED")
+            returned.timestamp = x.dt_us(new[1].start)
+            returned.duration = x.td_us(new[1].dur)
+            obl.append(("mutating-the-event-returned-by-insert-does-not-reach-the-store", same_snapshot(snapshot(ds, "A"), first)))
         # 2. mutate what reads handed out
         out = b.get(-1)
         for e in out:
@@ -240,13 +248,11 @@ def harnesses(tier):
         for mode in ("insert", "bulk", "replace", "replace_last"):
             hs.append((Harness(PROP, "%s-ownership-%s" % (bk, mode), h_ownership, dict(bk=bk, mode=mode), "%s: mutation of the caller's event after %s, of events handed out and of metadata dicts" % (bk, mode)), 900))
         hs.append((Harness(PROP, "%s-bucket-data-ownership" % bk, h_create_ownership, dict(bk=bk), "%s: data dict passed to create/update bucket" % bk), 300))
-    y2038 = 2**31 * 1000  # ms: from here on a double holding seconds has a 0.48 us grid
-    pre2038 = [i for i, (a, b) in enumerate(K_PIECES) if b < y2038]
-    recent = [i for i in pre2038 if K_PIECES[i][1] >= 946684800000]  # 2000 .. 2038
+    recent = [i for i, (a, b) in enumerate(K_PIECES) if b >= 946684800000]  # 2000 .. 2099
     if tier == "quick":
-        hs.append((Harness(PROP, "sqlite-ieee-2000..2038", h_sqlite_ieee, dict(kp_lo=recent[0], kp_hi=recent[-1]), "sqlite float pipeline under IEEE rounding: instants 2000-01-01 .. 2038-01-19 (%d range pieces) x all %d duration pieces" % (len(recent), len(D_PIECES)), split_depth=5, fresh_solver=True), 3000))
+        hs.append((Harness(PROP, "sqlite-ieee-2000..2099", h_sqlite_ieee, dict(kp_lo=recent[0], kp_hi=len(K_PIECES) - 1), "sqlite store/load pipeline under IEEE rounding: instants 2000 .. 2099 (%d range pieces) x all %d duration pieces" % (len(recent), len(D_PIECES)), split_depth=5, fresh_solver=True), 3000))
     else:
-        hs.append((Harness(PROP, "sqlite-ieee-1970..2038", h_sqlite_ieee, dict(kp_lo=0, kp_hi=pre2038[-1]), "sqlite float pipeline under IEEE rounding: all instants 1970-01-01 .. 2038-01-19 (%d range pieces) x all %d duration pieces" % (len(pre2038), len(D_PIECES)), split_depth=7, fresh_solver=True), 14000))
+        hs.append((Harness(PROP, "sqlite-ieee-1970..2099", h_sqlite_ieee, dict(kp_lo=0, kp_hi=len(K_PIECES) - 1), "sqlite store/load pipeline under IEEE rounding: all instants 1970 .. 2099 (%d range pieces) x all %d duration pieces" % (len(K_PIECES), len(D_PIECES)), split_depth=7, fresh_solver=True), 14000))
     return hs
 
 
@@ -256,10 +262,10 @@ def meta(chk, tier):
     chk.bounds = [
         "fidelity (exact arithmetic): instant any integer microsecond 1970..2099 with a symbolic UTC offset (whole minutes), duration any integer us in [0, 30 d], data from a pool of %d JSON documents (nested, unicode, quotes, floats, null); single and bulk insertion; one pre-existing event" % len(DATA_POOL),
         "ownership: every alias the API hands over or back is mutated (data incl. nested containers, timestamp, duration, id; metadata dicts and their data)",
-        "IEEE lemma (sqlite): k*1 ms instants and d us durations, one query set per (range piece of k, range piece of d) — pieces chosen so that microsecond and second values stay within one binade: %s" % ("instants 2000..2038-01-19 x all duration pieces" if tier == "quick" else "all pieces 1970..2038-01-19 x 0..30 d"),
+        "IEEE lemma (sqlite): k*1 ms instants and d us durations, one query set per (range piece of k, range piece of d) — pieces chosen so that microsecond and second values stay within one binade: %s" % ("instants 2000..2099 x all duration pieces" if tier == "quick" else "all pieces 1970..2099 x 0..30 d"),
     ]
     chk.stubs = ["as C02; real json runs on the pooled documents", "IEEE mode: int/int division, float * and +, INTEGER-affinity cells keep the double, fromtimestamp = modf + one rounded product + round-to-nearest (symex.fp)"]
-    chk.assumptions = ["json round trip of concrete documents is stdlib (executed, trusted)", "IEEE lemma decided for instants before 2038-01-19 (seconds < 2^31) only: from 2^31 s on, exactness of the duration depends on ties rounding to even; with ties free the solver returns candidates that do not reproduce natively, with the exact tie rule (fp.TIES_EVEN) z3 does not finish within 120 s per query — 2038..2100 is therefore NOT decided by this check (exact-arithmetic harnesses still cover those dates)", "peewee backend not covered by this check yet"]
+    chk.assumptions = ["json round trip of concrete documents is stdlib (executed, trusted)", "IEEE encoding lets an exact tie round either way (over-approximation); candidates are re-sampled (blocking clauses, up to 12 models) until one reproduces natively — this is how the post-2038 duration defect of the former float pipeline was found; since the fix the pipeline uses integers and the lemma is exact for all dates", "peewee backend not covered by this check yet"]
 
 
 def post(chk, tier):
